@@ -568,6 +568,54 @@ def _consumer_select_after_unrelated_replace():
     return "star-selection", '"y"' in sql, sql
 
 
+def _consumer_join_non_table_source(kind, order, known):
+    """Row sources that are not Table objects (derived table, CTE reference, set operation) take part in the membership test too."""
+    reg = registry()
+    T, Q = reg["Table"], reg["Query"]
+    a, b, c = T("ta"), T("tb"), T("tc")
+    if kind == "subquery":
+        src = Q.from_(c).select(c.x).as_("s")
+    elif kind == "cte":
+        src = reg["AliasedQuery"]("cq")
+    else:
+        src = Q.from_(c).select(c.x).union(Q.from_(c).select(c.y)).as_("u")
+    crit = (src.x == b.x) if order == 0 else (b.x == src.x)
+    crit = (a.x == b.x) & crit
+    q = Q.from_(a).select(a.x)
+    if known:  # the source is part of the statement (FROM / WITH): a linear search finds it
+        q = q.with_(Q.from_(c).select(c.x), "cq") if kind == "cte" else q.from_(src)
+    try:
+        q.join(b).on(crit)
+        accepted = True
+    except reg["JoinException"]:
+        accepted = False
+    if accepted != known:
+        return "join-validation", False, "join criterion naming the %s %s, which %s a source of the statement, was %s" % (
+            kind, getattr(src, "alias", None) or getattr(src, "name", "?"), "is" if known else "is not", "accepted" if accepted else "rejected")
+    return "join-validation", True, ""
+
+
+def _consumer_returning_mixed(order, stmt):
+    """A RETURNING term with several column references: every one of them is looked up, not just one."""
+    reg = registry()
+    T, Q = reg["Table"], reg["PostgreSQLQuery"]
+    own, other = T("town"), T("tother")
+    term = (own.a + other.a) if order == 0 else (other.a + own.a)
+    if order == 2:
+        term = (own.a + own.b) * (own.c - other.a)  # (functions are refused in RETURNING whatever they refer to: arithmetic only)
+    q = Q.into(own).insert(1) if stmt == "insert" else (Q.update(own).set(own.a, 1) if stmt == "update" else Q.from_(own).delete())
+    try:
+        q.returning(term)
+        return "returning-validation", False, "RETURNING %s (one column of a table outside the %s statement) was accepted" % (term, stmt)
+    except reg["QueryException"]:
+        pass
+    try:
+        q.returning(own.a + own.b, (own.a + 1) * (own.b - own.c))
+    except reg["QueryException"]:
+        return "returning-validation", False, "RETURNING terms over the statement's own table only were rejected"
+    return "returning-validation", True, ""
+
+
 CONSUMERS = [
     ("select-after-replace_table", lambda: _consumer_select_after_replace_table(False)),
     ("select-after-replace_table-star", lambda: _consumer_select_after_replace_table(True)),
@@ -582,6 +630,10 @@ CONSUMERS = [
     ("join-same-column-0", lambda: _consumer_join_same_column(0)),
     ("join-same-column-1", lambda: _consumer_join_same_column(1)),
     ("returning-temporal", _consumer_returning_temporal),
+] + [("join-non-table-source-%s-%d-%s" % (k_, o_, "known" if kn_ else "unknown"), (lambda k_=k_, o_=o_, kn_=kn_: _consumer_join_non_table_source(k_, o_, kn_)))
+     for k_ in ("subquery", "cte", "setop") for o_ in (0, 1) for kn_ in (False, True)] + [
+    ("returning-mixed-%d-%s" % (o_, st_), (lambda o_=o_, st_=st_: _consumer_returning_mixed(o_, st_))) for o_ in (0, 1, 2) for st_ in ("insert", "update", "delete")
+] + [
 ]
 
 
